@@ -75,6 +75,9 @@ pub struct Profile {
     pub id_fuzz_kinds: Vec<u8>,
     /// generate ObjType::Table objects (legacy type; quarantined: see known findings)
     pub tables: bool,
+    /// permille of runs in which the quarantined features (counters in sequences, increments on conflicted
+    /// registers) are switched ON so that the area of the corresponding known findings stays watched
+    pub quarantine_on_permille: u32,
     /// allow the per-run swarm to zero out families
     pub swarm: bool,
     /// long single-actor chains (to reach clock caches / slab splits)
@@ -149,6 +152,7 @@ impl Default for Profile {
             connect_all_at_permille: None,
             id_fuzz_kinds: (0..13).collect(),
             tables: false,
+            quarantine_on_permille: 0,
             swarm: true,
             long_chain_permille: 30,
             bloom_fp: vec![0],
@@ -350,14 +354,15 @@ pub fn gen_run(seed: u64, p: &Profile) -> (Cfg, Vec<Ev>) {
         let b = rng.range(p.events.0 as i64, p.events.1 as i64);
         a.min(b) as usize
     };
+    let quarantine_on = rng.chance(p.quarantine_on_permille);
     let cfg = Cfg {
         replicas,
         enc: *rng.pickv(&p.encs),
         actors,
         spare_actors: spare,
         keys: 1 + rng.below(p.max_keys.max(1) as u64) as u8,
-        counters_in_seqs: p.counters_in_seqs,
-        inc_on_conflicted_counters: p.inc_on_conflicted_counters,
+        counters_in_seqs: p.counters_in_seqs || quarantine_on,
+        inc_on_conflicted_counters: p.inc_on_conflicted_counters || quarantine_on,
         bloom_fp_permille: *rng.pickv(&p.bloom_fp),
         quiesce_paths: (0..8).map(|_| rng.below(7) as u8).collect(),
         p1: rng.next_u32(),
